@@ -3,7 +3,7 @@
    outright, and an empty output list (the observable form of "no answer") is never accepted. Axiom-free.
    Nothing here says anything about the Rust code. *)
 From Coq Require Import ZArith Bool List Lia.
-From DV Require Import Base Bid Arith OpsArith OpsCmp OpsMisc OpsConv OpsStr Judge Status StatusProofs.
+From DV Require Import Base Bid BidProofs Arith OpsArith OpsCmp OpsMisc OpsConv OpsStr Judge Status StatusProofs StrProofs.
 Import ListNotations.
 Open Scope Z_scope.
 
@@ -61,6 +61,13 @@ Lemma good_exact n l : (0 < n)%nat -> goodn n l -> good_expect (Exact l).
 Proof. intros Hn [H1 H2]. split; [apply exact_satisfiable; exact H1|apply (exact_never_empty n); assumption]. Qed.
 
 Lemma good_pred p f w : p w = true -> p [] = false -> good_expect (Pred p [f]).
+Proof.
+  intros Hw Hnil. split.
+  - exists w, f. cbn [acc existsb]. rewrite Hw, Z.eqb_refl. reflexivity.
+  - intros outs fl Ha ->. cbn [acc] in Ha. rewrite Hnil in Ha. cbn in Ha. congruence.
+Qed.
+
+Lemma good_pred_cons p f fls w : p w = true -> p [] = false -> good_expect (Pred p (f :: fls)).
 Proof.
   intros Hw Hnil. split.
   - exists w, f. cbn [acc existsb]. rewrite Hw, Z.eqb_refl. reflexivity.
@@ -272,26 +279,27 @@ Definition defined_op (o : op) (args : list Z) : bool :=
   match o, args with
   | (OSqrt | ORint | ONearbyint | ORintFix _ | OModf | OFrexp | ONextUp | ONextDown | OLogb | OIlogb | OQuantexp
      | OLlquantexp | OQuantum | OClass | OIsx | OAbs | ONeg | OCopy | OEncodeDpd | ODecodeDpd | OFromBin _ _ _
-     | OFromInt _ _ | OToInt _ _ _ _ | OLrint | OLround | OFmt | OOpNeg), [_] => true
+     | OFromInt _ _ | OToInt _ _ _ _ | OLrint | OLround | OFmt | OOpNeg | OSerde), [_] => true
   | (OAdd | OSub | OMul | ODiv | OQuantize | ORem | OFmod | OFdim | ONextAfter | OMinMax _ | OScaleb _ | OSameQuantum
      | OTotalOrder | OTotalOrderMag | OCopySign | OOps | OHashEq | OHashSet), [_; _] => true
   | OOpArith o', [_; _] => arith_op o'
   | (OFma | OCmp), [_; _; _] => true
-  | (OParse | OFromStr | OFromStr2 | OSum | OProduct), _ => true
+  | (OParse | OFromStr | OFromStr2 | OSum | OProduct | OSerdeDe | ONanTag), _ => true
+  | (OConsts | OMacro), [] => true
   | _, _ => false
   end.
 
 (* the argument shapes the harness produces: operand patterns are 128-bit words, the comparison predicate index is one of
-   the twenty, string arguments are byte lists; integer arguments (scaleb's n, from_int's and from_bin's source word) are
-   arbitrary *)
+   the twenty, string arguments are byte lists; integer arguments (scaleb's n, from_int's and from_bin's source word, the
+   tag characters of d128::nan) are arbitrary; the constants and the macro samples take no argument *)
 Definition pat (x : Z) : bool := (0 <=? x) && (x <? P128).
 Definition byte (b : Z) : bool := (0 <=? b) && (b <? 256).
 Definition args_ok (o : op) (args : list Z) : bool :=
   match o, args with
   | OScaleb _, [x; _] => pat x
-  | (OFromInt _ _ | OFromBin _ _ _), _ => true
+  | (OFromInt _ _ | OFromBin _ _ _ | ONanTag), _ => true
   | OCmp, [x; y; i] => pat x && pat y && (0 <=? i) && (i <? 20)
-  | (OParse | OFromStr | OFromStr2), l => forallb byte l
+  | (OParse | OFromStr | OFromStr2 | OSerdeDe), l => forallb byte l
   | _, l => forallb pat l
   end.
 Definition shape_ok (o : op) (args : list Z) : bool := defined_op o args && args_ok o args.
@@ -382,6 +390,77 @@ Qed.
 Lemma good_opneg md x : good_expect (expected OOpNeg md [x]).
 Proof. cbv beta iota delta [expected]. apply (good_exact 2); [lia|]. apply (goodn_repeat_out 2 1), goodn_neg. Qed.
 
+(* ---------- serde, d128::nan(tag), constants, macro ---------- *)
+(* [decode] yields a well-formed datum for every integer, not only for 128-bit words *)
+Lemma decode_wf_any b : wf (decode b).
+Proof.
+  unfold decode, wf, T34, T33, P110, P111, P113, P121, P122, P127.
+  destruct (_ =? 31) eqn:E31.
+  - destruct (_ <? _) eqn:Ep; [apply Z.ltb_lt in Ep|]; lia.
+  - destruct (_ =? 30) eqn:E30; [exact I|].
+    destruct (24 <=? _) eqn:E24.
+    + lia.
+    + apply Z.leb_gt in E24. apply Z.eqb_neq in E30, E31.
+      destruct (_ <? _) eqn:Ec; [apply Z.ltb_lt in Ec|]; lia.
+Qed.
+
+(* the Display text of every well-formed datum is a complete literal: re-reading it gives one outcome with one value *)
+Lemma format_reparse d : wf d -> exists oc, m_parse RNE (m_format true d) = SList [oc] /\ length (fst oc) = 1%nat.
+Proof.
+  intro W. destruct d as [s c q|s|s sg p].
+  - unfold m_parse. rewrite (format_denotes_wf true s c q W). eexists. split; reflexivity.
+  - rewrite (proj2 (format_inf true s) RNE). eexists. split; reflexivity.
+  - rewrite (proj2 (format_nan true s sg p) RNE). eexists. split; reflexivity.
+Qed.
+
+Lemma goodn_single1 (oc : outcome) n : length (fst oc) = n -> goodn n [oc].
+Proof. intro H. split; [discriminate|]. constructor; [exact H|constructor]. Qed.
+
+Lemma serde_expected md x : exists oc, length (fst oc) = 1%nat /\
+  expected OSerde md [x] =
+    Exact (map (fun o : outcome => (str_num ([34] ++ m_format true (decode x) ++ [34]) :: fst o, 0)) (fromstr_of [oc])).
+Proof.
+  destruct (format_reparse (decode x) (decode_wf_any x)) as [oc [E L]]. exists oc. split; [exact L|].
+  cbv beta iota zeta delta [expected]. rewrite E. reflexivity.
+Qed.
+
+Lemma good_serde md x : good_expect (expected OSerde md [x]).
+Proof.
+  destruct (serde_expected md x) as [oc [L ->]]. apply (good_exact 3); [lia|].
+  apply (goodn_map 2 3); [intros o Ho; cbn [fst length]; rewrite Ho; reflexivity|].
+  apply goodn_fromstr_of, goodn_single1, L.
+Qed.
+
+Definition noerrflags : list outcome -> list outcome :=
+  map (fun oc : outcome => match oc with ([0; _], f) => ([0; 0], f) | _ => oc end).
+Lemma goodn_noerrflags l : goodn 2 l -> goodn 2 (noerrflags l).
+Proof.
+  unfold noerrflags. apply goodn_map. intros [[|a [|b [|c t]]] f] Ho; cbn [fst length] in Ho; try discriminate Ho.
+  destruct a; reflexivity.
+Qed.
+
+Lemma good_serde_de md l : good_expect (expected OSerdeDe md l).
+Proof.
+  cbv beta iota zeta delta [expected]. fold noerrflags.
+  pose proof (parse_good RNE l) as G. destruct (m_parse RNE l) as [ol| |ol|s]; cbn [sgood] in G.
+  - apply (good_exact 2); [lia|apply goodn_noerrflags, goodn_fromstr_of; exact G].
+  - apply (good_pred _ _ [1; encode QNAN]); [exact default_qnan_witness|reflexivity].
+  - apply good_known.
+    + apply (good_pred _ _ [1; encode QNAN]); [exact default_qnan_witness|reflexivity].
+    + apply (exact_never_empty 2); [lia|exact (proj2 (goodn_noerrflags _ (goodn_fromstr_of ol G)))].
+  - apply (good_pred _ _ [1; encode QNAN]); [exact any_nan0_witness|reflexivity].
+Qed.
+
+Lemma good_nantag md l : good_expect (expected ONanTag md l).
+Proof.
+  cbv beta iota delta [expected]. apply (good_pred_cons _ _ _ [encode QNAN]); [vm_compute|]; reflexivity.
+Qed.
+
+Lemma good_consts md : good_expect (expected OConsts md []).
+Proof. cbv beta iota delta [expected]. apply (good_exact 17); [lia|leaf]. Qed.
+Lemma good_macro md : good_expect (expected OMacro md []).
+Proof. cbv beta iota delta [expected]. apply (good_exact 3); [lia|leaf]. Qed.
+
 (* what is proved about one (operation, mode, arguments) triple *)
 Definition spec_ok (o : op) (md : rmode) (args : list Z) : Prop :=
   satisfiable (expected o md args) /\
@@ -415,12 +494,14 @@ Proof.
   destruct o;
   first
   [ apply spec_ok_of_good; [reflexivity|];
-    first [ apply good_parse | apply good_fromstr | apply good_fromstr2 | apply good_sum | apply good_product ]
+    first [ apply good_parse | apply good_fromstr | apply good_fromstr2 | apply good_sum | apply good_product
+          | apply good_serde_de | apply good_nantag ]
   | destruct args as [|a1 [|a2 [|a3 [|a4 rest]]]]; cbv beta iota delta [defined_op] in H; try discriminate H;
     first
     [ apply frexp_ok | apply quantum_ok
     | apply spec_ok_of_good; [reflexivity|];
       first [ apply good_modf | apply good_from_bin | apply good_hasheq | apply good_oparith; exact H | apply good_opneg
+            | apply good_serde | apply good_consts | apply good_macro
             | cbv beta iota delta [expected];
               first [ apply (good_exact 1); [lia|solve [auto with gn]]
                     | apply (good_exact 4); [lia|solve [auto with gn]] ] ] ] ].
@@ -578,7 +659,8 @@ Lemma single_parse md s l : m_parse md s = SList l -> single l.
 Proof. unfold m_parse. destruct (lex s); intro E; try discriminate E; injection E as <-; sleaf. Qed.
 
 (* the operations whose several accepted outcomes are intended: min/max of equal values (either operand), sums and
-   products (NaN choice at each step) *)
+   products (NaN choice at each step). (d128::nan(tag) has a predicate expectation, never a list, so the theorem below
+   holds for it vacuously.) *)
 Definition det_op (o : op) : bool := match o with OMinMax _ | OSum | OProduct => false | _ => true end.
 (* the operand lists in which the choice of the propagated NaN is left open by C12 *)
 Definition nan_choice_operands (o : op) (args : list Z) : list Z :=
@@ -586,6 +668,9 @@ Definition nan_choice_operands (o : op) (args : list Z) : list Z :=
   | OAdd | OSub | OMul | ODiv | OFma | OQuantize | ORem | OFmod | OFdim | ONextAfter | OOpArith _ => args
   | _ => []
   end.
+
+Lemma exact_inj (l l' : list outcome) : Exact l = Exact l' -> l = l'.
+Proof. intro H. injection H as H. exact H. Qed.
 
 Theorem spec_deterministic_where_stated o md args l :
   det_op o = true -> defined_op o args = true ->
@@ -595,26 +680,33 @@ Proof.
   intros Hd H Hn E. destruct o; try discriminate Hd;
   first
   [ (* string operations *)
-    cbv beta iota delta [expected] in E;
+    cbv beta iota zeta delta [expected] in E;
     match type of E with context [m_parse ?m ?s] =>
-      pose proof (single_parse m s) as S; destruct (m_parse m s); try discriminate E; injection E as <-;
+      pose proof (single_parse m s) as S; destruct (m_parse m s); try discriminate E; apply exact_inj in E; subst l;
       repeat apply single_map; exact (S _ eq_refl) end
   | destruct args as [|a1 [|a2 [|a3 [|a4 rest]]]]; cbv beta iota delta [defined_op] in H; try discriminate H;
-    cbv beta iota delta [expected] in E; cbn [map nan_choice_operands] in Hn;
     first
-    [ injection E as <-; unfold repeat_out; repeat apply single_map; solve [auto with sg]
-    | (* modf *) destruct (decode a1); try discriminate E; injection E as <-; apply single_modf
+    [ (* serde *)
+      match type of E with expected OSerde _ [?x] = _ =>
+        destruct (serde_expected md x) as [oc [_ S]]; rewrite S in E; apply exact_inj in E; subst l;
+        repeat apply single_map; apply single_lit end
+    | cbv beta iota delta [expected] in E; cbn [map nan_choice_operands] in Hn;
+    first
+    [ discriminate E
+    | apply exact_inj in E; subst l; apply single_lit
+    | apply exact_inj in E; subst l; unfold repeat_out; repeat apply single_map; solve [auto with sg]
+    | (* modf *) destruct (decode a1); try discriminate E; apply exact_inj in E; subst l; apply single_modf
     | (* frexp, quantum *) unfold of_kind, m_frexp, m_quantum in E;
       repeat match type of E with
              | match (match ?d with _ => _ end) with _ => _ end = _ => destruct d
              | match (if ?b then _ else _) with _ => _ end = _ => destruct b
-             end; try discriminate E; injection E as <-; sleaf
+             end; try discriminate E; apply exact_inj in E; subst l; sleaf
     | (* from binary *)
       match type of E with context [m_from_bin ?eb ?fb ?m ?b] =>
         pose proof (single_from_bin eb fb m b) as S; destruct (m_from_bin eb fb m b); [|discriminate E];
-        match type of E with context [if ?u then _ else _] => destruct u end; injection E as <-;
+        match type of E with context [if ?u then _ else _] => destruct u end; apply exact_inj in E; subst l;
         repeat apply single_map; exact (S _ eq_refl) end
-    | (* operator forms *) injection E as <-; unfold repeat_out; apply single_map, single_arith2; assumption ] ].
+    | (* operator forms *) apply exact_inj in E; subst l; unfold repeat_out; apply single_map, single_arith2; assumption ] ] ].
 Qed.
 
 (* hence the accepted behaviour is unique there *)
